@@ -46,6 +46,7 @@ import (
 // outlinks with digital anchor text.
 type PageNumberFinder struct {
 	wordCounter              stringutil.WordCounter
+	baseURL                  *nurl.URL
 	adjacentNumberGroups     *info.MonotonicPageInfoGroups
 	numForwardLinksProcessed int
 
@@ -64,6 +65,10 @@ func NewPageNumberFinder(wc stringutil.WordCounter, timingInfo *data.TimingInfo,
 }
 
 func (pnf *PageNumberFinder) FindPagination(root *html.Node, pageURL *nurl.URL) (pagination data.PaginationInfo) {
+	// Relative hrefs are resolved against the page URL as given, not against
+	// the copy below whose trailing slash is trimmed for the comparisons.
+	pnf.baseURL = pageURL
+
 	url := *pageURL
 	url.Path = strings.TrimSuffix(url.Path, "/")
 	url.RawPath = url.Path
@@ -175,8 +180,13 @@ func (pnf *PageNumberFinder) getPageInfoAndText(link *html.Node, pageURL *nurl.U
 		return nil, ""
 	}
 
+	baseURL := pnf.baseURL
+	if baseURL == nil {
+		baseURL = pageURL
+	}
+
 	linkHref := dom.GetAttribute(link, "href")
-	linkHref = stringutil.CreateAbsoluteURL(linkHref, pageURL)
+	linkHref = stringutil.CreateAbsoluteURL(linkHref, baseURL)
 
 	isEmptyHref := linkHref == ""
 	isJavascriptLink := strings.HasPrefix(linkHref, "javascript:")
